@@ -10,6 +10,7 @@ package main
 //	req <forced> <reasons> <keys> <wrefs>
 //	nilreq
 //	order <watched types>
+//	conn <watched types> <services of the push context> <fresh scope> <forced> <reasons> <keys> <wrefs>
 //	merge <forced1> <reasons1> <keys1> <wrefs1> <forced2> <reasons2> <keys2> <wrefs2>
 //
 // Tokens: key = Kind/name/ns ; scope = nil | ns:deps:services (';' separated) ; mg = nil | ap:hosts:names ;
@@ -24,7 +25,9 @@ import (
 	"istio.io/istio/pilot/pkg/model"
 	"istio.io/istio/pilot/pkg/xds"
 	xdsfake "istio.io/istio/pilot/test/xds"
+	"istio.io/istio/pkg/config/host"
 	"istio.io/istio/pkg/config/schema/kind"
+	"istio.io/istio/pkg/util/sets"
 	"verifharness/internal/wire"
 )
 
@@ -271,9 +274,54 @@ func (q mReq) toks() []string {
 	return []string{wire.B(q.Forced), join(q.Reasons), join(keys), join(wrefs)}
 }
 
+// the types a recording generator exists for (operation `conn`)
+var connTypes = []string{"CDS", "EDS", "LDS", "RDS", "SDS", "NDS", "ECDS", "PCDS"}
+
+// freshScope observes, on the REAL objects, the sidecar scope that computeProxyState would compute
+// for this proxy from the push context over `svcs`: which keys of the request it depends on and
+// which services it contains (the model gets exactly these facts).
+func (e *needsEnv) freshScope(mp mProxy, q mReq, svcs []int) mScope {
+	px := e.scopes.realProxy(mp)
+	old := px.SidecarScope
+	px.SetSidecarScope(e.scopes.push(svcs))
+	sc := px.SidecarScope
+	if sc == nil {
+		return mScope{Nil: true}
+	}
+	if sc == old {
+		return mp.Scope
+	}
+	out := mScope{Ns: mp.CfgNs}
+	seen := map[mKey]bool{}
+	for _, k := range q.Keys {
+		// DependsOnConfig answers for cluster-scoped and unknown kinds without looking at the dependency set;
+		// only for the kinds it looks up does membership matter
+		if !seen[k] && sidecarScopedKind(k.Kind) && sc.DependsOnConfig(k.real(), rootNamespace) {
+			seen[k] = true
+			out.Deps = append(out.Deps, k)
+		}
+	}
+	for _, h := range []int{5, 6, 7, 8} {
+		if sc.GetService(host.Name(objName(h))) != nil {
+			out.Services = append(out.Services, h)
+		}
+	}
+	return out
+}
+
+func sidecarScopedKind(k kind.Kind) bool {
+	switch k {
+	case kind.Endpoints, kind.ServiceEntry, kind.VirtualService, kind.DestinationRule, kind.Sidecar, kind.PeerAuthentication:
+		return true
+	}
+	return false
+}
+
 func genNeeds(seed uint64, n int, out string) {
 	r := wire.NewRng(seed*7919 + 101)
 	kinds := allKinds()
+	ge := newNeedsEnv()
+	defer ge.close()
 	o := wire.Create(out)
 	defer o.Close()
 	allTypes := []string{"CDS", "EDS", "LDS", "RDS", "SDS", "WDS", "WL", "WAUTH", "NDS", "ECDS", "PCDS"}
@@ -288,6 +336,17 @@ func genNeeds(seed uint64, n int, out string) {
 				o.Line("nilreq")
 			case cr.Chance(1, 12):
 				o.Line("order", join(wire.Subset(cr, allTypes, 1, 2)))
+			case cr.Chance(1, 4):
+				q := genReq(cr, kinds, p)
+				var svcs []int
+				for _, h := range []int{5, 6, 7, 8} {
+					if cr.Chance(1, 2) {
+						svcs = append(svcs, h)
+					}
+				}
+				watched := wire.Subset(cr, connTypes, 2, 3)
+				fresh := ge.freshScope(p, q, svcs)
+				o.Line(append([]string{"conn", join(watched), join(ints(svcs)), fresh.tok()}, q.toks()...)...)
 			case cr.Chance(1, 4):
 				a, b := genReq(cr, kinds, p), genReq(cr, kinds, p)
 				o.Line(append(append([]string{"merge"}, a.toks()...), b.toks()...)...)
@@ -490,6 +549,96 @@ func (e *needsEnv) refresh(mp mProxy, q mReq, viaPush bool, nilReq bool) string 
 		wire.B(px.PrevMergedGateway != nil && px.PrevMergedGateway.ContainsAutoPassthroughGateways)
 }
 
+// recorder is registered as THE generator of one xDS type on the harness server: the real
+// pushConnection / pushXds reach it through the real findGenerator. It records that it was called and
+// with which request, takes the decision with the real *NeedsPush of its type, and returns no
+// resources (the bare connection has no stream to send on).
+type recorder struct {
+	typ string
+	log *connLog
+}
+
+type connLog struct {
+	called []string
+	sent   []string
+	keys   []sets.Set[model.ConfigKey]
+}
+
+func (r recorder) Generate(proxy *model.Proxy, w *model.WatchedResource, req *model.PushRequest) (model.Resources, model.XdsLogDetails, error) {
+	r.log.called = append(r.log.called, r.typ)
+	r.log.keys = append(r.log.keys, req.ConfigsUpdated)
+	var ok bool
+	switch r.typ {
+	case "CDS":
+		_, ok = xds.VerifC01CdsNeedsPush(req, proxy)
+	case "EDS":
+		ok = xds.VerifC01EdsNeedsPush(req, proxy)
+	case "LDS":
+		ok = xds.VerifC01LdsNeedsPush(proxy, req)
+	case "RDS":
+		ok = xds.VerifC01RdsNeedsPush(req, proxy)
+	case "NDS":
+		ok = xds.VerifC01NdsNeedsPush(req, proxy)
+	case "ECDS":
+		ok = xds.VerifC01EcdsNeedsPush(req, proxy)
+	case "SDS":
+		ok = xds.VerifC01SdsNeedsPush(req.Forced, req.ConfigsUpdated)
+	case "PCDS":
+		ok = xds.VerifC01PcdsNeedsPush(req)
+	}
+	if ok {
+		r.log.sent = append(r.log.sent, r.typ)
+	}
+	return nil, model.DefaultXdsLogDetails, nil
+}
+
+// connection runs the REAL pushConnection (state refresh, per-proxy filter, one pushXds per watched
+// type in push order) for a proxy watching `watched`, with recording generators.
+func (e *needsEnv) connection(mp mProxy, watched []string, svcs []int, q mReq) string {
+	d := e.s.Discovery
+	log := &connLog{}
+	saved := d.Generators
+	d.Generators = map[string]model.XdsResourceGenerator{}
+	for _, t := range connTypes {
+		d.Generators[longType(t)] = recorder{typ: t, log: log}
+	}
+	defer func() { d.Generators = saved }()
+	px := e.scopes.realProxy(mp)
+	for _, t := range watched {
+		l := longType(t)
+		px.WatchedResources[l] = &model.WatchedResource{TypeUrl: l}
+	}
+	req := realReq(q, e.scopes.push(svcs))
+	if err := xds.VerifC01PushConnection(d, px, req); err != nil {
+		return "error"
+	}
+	split := func(xs []string) string {
+		var known, other []string
+		for _, t := range xs {
+			if xds.KnownOrderedTypeUrls.Contains(longType(t)) {
+				if len(other) > 0 {
+					return "known-after-unknown"
+				}
+				known = append(known, t)
+			} else {
+				other = append(other, t)
+			}
+		}
+		sort.Strings(other)
+		return join(known) + "+" + join(other)
+	}
+	keys := "-"
+	if len(log.keys) > 0 {
+		keys = join(keysBack(q.Keys, log.keys[0]))
+		for _, k := range log.keys[1:] {
+			if join(keysBack(q.Keys, k)) != keys {
+				return "generators-saw-different-requests"
+			}
+		}
+	}
+	return "called=" + split(log.called) + " sent=" + split(log.sent) + " keys=" + keys
+}
+
 func (e *needsEnv) nilDecisions(mp mProxy) []string {
 	px := e.scopes.realProxy(mp)
 	var out []string
@@ -509,6 +658,12 @@ func (e *needsEnv) nilDecisions(mp mProxy) []string {
 func mergeReal(a, b mReq, push *model.PushContext) (*model.PushRequest, mReq) {
 	ra, rb := realReq(a, push), realReq(b, push)
 	m := ra.CopyMerge(rb)
+	// the debouncer uses the mutating Merge (discovery.go), the push queue CopyMerge: both must give the same request
+	m2 := realReq(a, push).Merge(realReq(b, push))
+	if m2.Forced != m.Forced || !m2.ConfigsUpdated.Equals(m.ConfigsUpdated) || !m2.WaypointsUpdated.Equals(m.WaypointsUpdated) ||
+		len(m2.Reason) != len(m.Reason) {
+		panic("Merge and CopyMerge disagree")
+	}
 	var out mReq
 	out.Forced = m.Forced
 	seen := map[mKey]bool{}
@@ -591,6 +746,12 @@ func execNeeds(in, out string) {
 				o.Line(e.nilDecisions(mp)...)
 			case "order":
 				o.Line(orderLine(mp, parseList(f[1], ",")))
+			case "conn":
+				var svcs []int
+				for _, x := range parseList(f[2], ",") {
+					svcs = append(svcs, atoi(x))
+				}
+				o.Line(agree(func() string { return e.connection(mp, parseList(f[1], ","), svcs, parseReq(f[4:8])) }))
 			case "merge":
 				a, b := parseReq(f[1:5]), parseReq(f[5:9])
 				_, m := mergeReal(a, b, e.push)
